@@ -149,7 +149,13 @@ class Explorer:
             self.n["kind " + it["kind"]] += 1
             if "diagnostics" not in r:
                 if r.get("parse_errors"):
-                    raise Machinery(f"generated program does not parse ({it['fine']} of {it['base']}): {r['parse_errors'][0]['message']}\n{it['src']}")
+                    # e.g. two parameters renamed to the same name: a syntax error is an error `check` reports
+                    if it["kind"] == "base":
+                        raise Machinery(f"base program does not parse ({it['base']}): {r['parse_errors'][0]['message']}\n{it['src']}")
+                    ctx.outcome("check: rejected (syntax error: " + norm(r["parse_errors"][0]["message"]) + ")")
+                    self.n["mutants that do not parse"] += 1
+                    self.setv(it, "rejected")
+                    continue
                 if "timeout" in r or "crash" in r or "panic" in r:
                     # not this property's subject (C01/C02); never a verdict here
                     ctx.outcome("check: worker " + ("timeout" if "timeout" in r else "crash/panic") + " (no verdict)")
@@ -259,6 +265,7 @@ class Explorer:
         detail = {"src": it["src"], "base": it["base"], "mutation": it["fine"], "runtime_error": message, "lint_warnings": it.get("lint", [])}
         if sig not in ctx.violations:
             self.confirm(it, cls, detail)
+            print(f"[C16] new signature: {sig}   ({it['fine']} of {it['base']})", flush=True)
         ctx.violation(sig, detail, cli_cmd="garden check <file with src>   # no error, no type warning;   garden run <file with src>   # raises the runtime error")
 
     def confirm(self, it, cls, detail):
@@ -352,6 +359,7 @@ def run(ctx):
                 yield from mutants(p, n)
     for ch in chunks(d2(), 40000):
         ex.process(ch)
+        print(f"[C16] depth 2: {ex.n['programs']} programs so far", flush=True)
     n_single = ex.n["programs"] - n_base
     # 3. thorough: every pair of disjoint edits of the depth-1 canonical programs, reduced alphabet
     n_pairs = 0
@@ -373,6 +381,7 @@ def run(ctx):
             before = ex.n["programs"]
             ex.process(ch)
             n_pairs += ex.n["programs"] - before
+            print(f"[C16] pairs: {n_pairs} so far", flush=True)
 
     if ex.unknown:
         raise Machinery("unclassified runtime messages (extend the template table): " + "; ".join(f"{m} x{c}" for m, c in ex.unknown.most_common(8)))
@@ -380,6 +389,8 @@ def run(ctx):
     rejected = oc.get("check: rejected (error diagnostic)", 0)
     accepted = ex.n["accepted"]
     value_exc = ex.n["accepted, raised value-level exception"]
+    if ex.n["mutants that do not parse"] * 100 > ex.n["programs"]:
+        raise Machinery(f"{ex.n['mutants that do not parse']} of {ex.n['programs']} generated programs do not parse")
     if rejected < 1000 or accepted < 1000 or value_exc < 20:
         raise Machinery(f"vacuous exploration: rejected={rejected} accepted={accepted} accepted-with-value-level-exception={value_exc}")
     for k in sorted(ex.n):
